@@ -206,7 +206,8 @@ def perform(cs, step, dc):
         return ("err", type(e).__name__)
 
 
-def py(step) -> str:
+def py(step, show=False) -> str:
+    """the step as Python source (show: print what is observed)"""
     k = step[0]
     if k == "new":
         return f"cs = cstruct(endian={step[1]!r})"
@@ -221,35 +222,45 @@ def py(step) -> str:
         return f"cs.{step[1]}.add_field({step[2]!r}, cs.typedefs[{step[3]!r}]{idx})"
     if k == "endian":
         return f"cs.endian = {step[1]!r}"
-    if k == "resolve":
-        return f"cs.resolve({step[1]!r})"
-    if k == "attr":
-        return f"cs.{step[1]}"
-    if k == "sizeof":
-        return f"len(cs.resolve({step[1]!r}))"
-    if k == "read":
-        return f"cs.read({step[1]!r}, bytes.fromhex({step[2].hex()!r}))"
+    # observations that yield an instance: the value and its bytes are observed
+    inst = None
     if k == "call":
-        return f"cs.resolve({step[1]!r})(bytes.fromhex({step[2].hex()!r}))"
-    if k == "array":
-        return f"cs.resolve({step[1]!r})[{step[2]}](bytes.fromhex({step[3].hex()!r}))"
-    if k == "dumpval":
-        return f"cs.resolve({step[1]!r})({step[2]!r}).dumps()"
-    if k == "make":
-        return build_py(step[1])
-    if k == "assign":
-        return f"x = {build_py(step[1])}; " + "; ".join(f"x.{n} = {spec_py(s)}" for n, s in step[2]) + "; x, x.dumps()"
-    if k == "inst":
-        return INST_PY[step[1]].format(x=build_py(step[2]), y=build_py(step[3]) if len(step) > 3 and step[3] is not None else "")
-    raise ValueError(k)
+        inst = f"x = cs.resolve({step[1]!r})(bytes.fromhex({step[2].hex()!r}))"
+    elif k == "array":
+        inst = f"x = cs.resolve({step[1]!r})[{step[2]}](bytes.fromhex({step[3].hex()!r}))"
+    elif k == "make":
+        inst = f"x = {build_py(step[1])}"
+    elif k == "assign":
+        inst = f"x = {build_py(step[1])}; " + "; ".join(f"x.{n} = {spec_py(s)}" for n, s in step[2])
+    if inst is not None:
+        return inst + ("; print(x, x.dumps())" if show else "; x.dumps()")
+    if k == "resolve":
+        e = f"cs.resolve({step[1]!r})"
+    elif k == "attr":
+        e = f"cs.{step[1]}"
+    elif k == "sizeof":
+        e = f"len(cs.resolve({step[1]!r}))"
+    elif k == "read":
+        e = f"cs.read({step[1]!r}, bytes.fromhex({step[2].hex()!r}))"
+    elif k == "dumpval":
+        e = f"cs.resolve({step[1]!r})({step[2]!r}).dumps()"
+    elif k == "inst":
+        e = INST_PY[step[1]].format(x=build_py(step[2]), y=build_py(step[3]) if len(step) > 3 and step[3] is not None else "")
+    else:
+        raise ValueError(k)
+    return f"print({e})" if show else e
 
 
 def script(steps, last=None) -> str:
+    """a standalone script; earlier observations that fail are wrapped so that the script goes on like the history did"""
     lines = ["from dissect.cstruct import cstruct"]
     for s in steps:
-        lines.append(py(s) + ("" if s[0] in DEFINITIONAL else "          # result ignored"))
+        if s[0] == "new":
+            lines.append(py(s))
+        else:
+            lines.append("try: " + py(s) + "\nexcept Exception: pass")
     if last is not None:
-        lines.append("print(" + py(last) + ")" if last[0] != "assign" else py(last).replace("; x, x.dumps()", "; print(x, x.dumps())"))
+        lines.append(py(last, show=True))
     return "\n".join(lines)
 
 
@@ -289,7 +300,7 @@ class History:
         self.steps.append(step)
         return got
 
-    def observe(self, op, what="", record=True):
+    def observe(self, op, what=""):
         got = perform(self.cs, op, self.dc)
         want = self.fresh(op)
         tag = op[0] + (":" + op[1] if op[0] == "inst" else ":" + op[1][0] if op[0] in ("make", "assign") else "")
@@ -297,8 +308,7 @@ class History:
         ok = repr(got) == repr(want)
         if not ok:
             self.report(op, got, want, what or "observation")
-        if record:
-            self.steps.append(op)
+        self.steps.append(op)     # probes included: they are part of what happened to this object
         return ok
 
     def report(self, op, got, want, what):
@@ -356,9 +366,9 @@ def alias_history(ctx):
     def probes():
         ok = True
         for n in bound + repointed:
-            ok = h.observe(("call", n, data), "probe parse", record=False) and ok
+            ok = h.observe(("call", n, data), "probe parse") and ok
         for s in structs:
-            ok = h.observe(("make", ("parse", s, data)), "probe parse", record=False) and ok
+            ok = h.observe(("make", ("parse", s, data)), "probe parse") and ok
         return ok
 
     # the opening: an inner name and an outer name that refers to it
@@ -611,7 +621,7 @@ def type_history(ctx):
         ok = True
         for T in use:
             for op in probe_ops[T]:
-                ok = h.observe(op, "probe", record=False) and ok
+                ok = h.observe(op, "probe") and ok
                 if not ok:
                     return False
         return ok
@@ -682,3 +692,26 @@ def run(env, res, viol, rnd, n_alias, n_type):
     for _ in range(n_type):
         type_history(ctx)
         ctx.cache.clear()
+
+
+def replay(case) -> int:
+    """re-run the two recorded scripts of a t4 case on the current tree: 1 = the observation still depends on the history"""
+    import contextlib
+    import io
+    impl.dc()
+    outs = []
+    for key in ("history_script", "fresh_script"):
+        buf = io.StringIO()
+        with contextlib.redirect_stdout(buf):
+            try:
+                exec(compile(case[key], key, "exec"), {})  # noqa: S102
+            except Exception as e:  # noqa: BLE001
+                print("error", type(e).__name__)
+        outs.append(buf.getvalue())
+    print("after the history :", outs[0].strip()[:400])
+    print("without it        :", outs[1].strip()[:400])
+    if outs[0] != outs[1]:
+        print("still fails: the observation depends on the earlier operations")
+        return 1
+    print("the case passes on this tree")
+    return 0
